@@ -98,8 +98,19 @@ def draw_config(rng, links_allowed=('bytes', 'messages'),
 
 
 def describe_cfg(cfg):
-    return {'link': cfg['link'], 'frag_c': cfg['frag_c'], 'frag_s': cfg['frag_s'],
-            'knobs_c': cfg['knobs_c'].describe(), 'knobs_s': cfg['knobs_s'].describe()}
+    d = {'link': cfg['link'], 'frag_c': cfg['frag_c'], 'frag_s': cfg['frag_s'],
+         'knobs_c': cfg['knobs_c'].describe(), 'knobs_s': cfg['knobs_s'].describe()}
+    if cfg.get('lease'):
+        d['lease'] = [list(x) for x in cfg['lease']]
+    return d
+
+
+def draw_leases(rng):
+    """(wait, count, ttl_ms) leases published by the server; the last one never runs out, so that every request
+    retained by a lease-honouring client is eventually released."""
+    out = [(rng.choice([0.0, 0.2, 1.0]), rng.choice([0, 1, 2, 3]), rng.choice([50, 1000, 10000]))
+           for _ in range(rng.choice([0, 1, 2, 4]))]
+    return out + [(rng.choice([0.0, 0.2, 1.5]), MAX_N, MAX_N)]
 
 
 def draw_spec(rng, iid, cfg, side=None, model=None, sources=('rec', 'rec', 'gen', 'agen'), timed=True,
